@@ -12,6 +12,13 @@ pub static C09: C09Prop = C09Prop;
 /// Clause (a): every line break in the gaps between tokens (outside verbatim ranges) and inside
 /// re-indented multi-line strings is the configured terminator.
 pub fn check_uniform(out: &str, cfg: &Cfg) -> Result<(), Failure> {
+    check_uniform_counting(out, cfg).map(|_| ())
+}
+
+/// As `check_uniform`; returns how many valid multi-line strings had their interior line
+/// breaks asserted (vacuity audit: this clause was once dead code).
+pub fn check_uniform_counting(out: &str, cfg: &Cfg) -> Result<u32, Failure> {
+    let mut literals_checked = 0u32;
     let toks = refscan::scan(out);
     let ex = c08::exempt_ranges(out, &toks);
     let inside = |pos: usize| ex.iter().any(|(a, b)| pos >= *a && pos < *b);
@@ -55,6 +62,7 @@ pub fn check_uniform(out: &str, cfg: &Cfg) -> Result<(), Failure> {
             let lit = t.text(out);
             // only literals the formatter owns: valid ones (indentation rule holds)
             if c02::mlstr_value(lit).is_some() {
+                literals_checked += 1;
                 if let Some(i) = bad_break(lit) {
                     return Err(Failure::new(
                         "terminator",
@@ -69,7 +77,7 @@ pub fn check_uniform(out: &str, cfg: &Cfg) -> Result<(), Failure> {
             }
         }
     }
-    Ok(())
+    Ok(literals_checked)
 }
 
 fn has_line_spanning_verbatim(input: &str, cfg: &Cfg) -> bool {
@@ -259,8 +267,9 @@ impl Prop for C09Prop {
         if let Err(f) = check_uniform(&o_lf, &lf) {
             return Outcome::Fail(f.fact("cfg:lf").facts(&logf));
         }
-        if let Err(f) = check_uniform(&o_cr, &cr) {
-            return Outcome::Fail(f.fact("cfg:crlf").facts(&logf));
+        match check_uniform_counting(&o_cr, &cr) {
+            Err(f) => return Outcome::Fail(f.fact("cfg:crlf").facts(&logf)),
+            Ok(n) => ctx.class_if(n > 0, "asserted:terminators-inside-valid-mlstr"),
         }
         // (b)
         if o_cr.replace("\r\n", "\n") != o_lf {
